@@ -551,8 +551,12 @@ package schema
 //@   loop 1 invariant wfp(p) && p.lexer == old(p.lexer) && pm(p) <= old(pm(p))
 //@   loop 1 decreases[C12] p.fatal ? 0 : pm(p) + 1
 
+// Parse works on a parser and lexer of its own: nothing the caller can see is written
+// (frame assumed: noframe)
 //@ func Parse
 //@   props C12
+//@   noframe
+//@   modifies nothing
 
 //@ func (itemType).String
 //@   trusted
